@@ -56,6 +56,35 @@ def run_scope_patient(lines, patient=None, **kw):
     return outs, len(slow)
 
 
+def _nest(n, base):
+    return [[base + i, [base + 2 * i, base + 3 * i + 1], base + 7] for i in range(n)]
+
+
+BEHAVIOUR_ENVS = [_nest(12, 1), _nest(12, 40), [[3], 5, 7, 9, 11, 13, 15, 17, 19, 21, 23, 25], []]
+
+
+def _tree(x):
+    if isinstance(x, list):
+        t = b""
+        for e in reversed(x):
+            t = (_tree(e), t)
+        return t
+    return gen.int_atom(x) if hasattr(gen, "int_atom") else (bytes([x]) if 0 < x < 128 else b"")
+
+
+def same_behaviour(o1, o2):
+    """two `ok <hex>` answers run by clvmr on a few argument trees give the same results (value or failure)"""
+    f1, f2 = o1.split(), o2.split()
+    if len(f1) < 2 or len(f2) < 2:
+        return False
+    lines = []
+    for e in BEHAVIOUR_ENVS:
+        eh = gen.hexv(_tree(e))
+        lines += [f"{f1[1]} {eh}", f"{f2[1]} {eh}"]
+    outs = lib.run_impl("base", lines)
+    return all(outs[i] == outs[i + 1] for i in range(0, len(outs), 2))
+
+
 def norm_prog(o):
     """an `ok <hex>` answer with generated names (`X_$_123`, which cl22 leaks into its output and
     which carry a process-wide counter) reduced to their stem, for comparing two compilations."""
@@ -602,8 +631,15 @@ def evaluate_mutants(chk, all_m):
                         # generation: unused inline argument, dead branch, dead function): not "reachable code"
                         chk.count(key + ":accepted-position-not-in-output")
                         continue
-                    chk.count(key + ":ACCEPTED")
                     leaked = m["expect"]["names"][0].encode().hex() in bad.split()[1]
+                    if not leaked and bad2.startswith("ok") and same_behaviour(bad, bad2) and same_behaviour(bad, good):
+                        # the name is not in the emitted code and the program behaves exactly like the one with another
+                        # spelling and like the repaired twin: the position was dropped before code generation (unused
+                        # inline argument), and the two emitted programs differ only by an ordering that depends on
+                        # name hashes (cl23+ CSE, finding C05-cl23-cse-order) - not "reachable code"
+                        chk.count(key + ":accepted-position-not-in-output(behaviourally)")
+                        continue
+                    chk.count(key + ":ACCEPTED")
                     sig = ("scope:unbound:accepted-" + ("as-constant" if leaked else "changes-output") + ":"
                            + m["cls"] + (":cl23+" if d in ("cl23", "cl23.1", "cl24") and m["cls"].startswith("macro-template") else ""))
                     chk.fail("oracle", sig, case, {"emitted": bad.split()[1][:300],
